@@ -66,7 +66,11 @@ func (c *retryC) Op(f []string) string {
 		if m["dis"] == "1" {
 			dopts = append(dopts, grpc.WithDisableRetry())
 		}
-		c.env = newRetryEnv(parseScript(m["script"]), retryServiceConfig(m, ""), dopts, m["kind"], nil)
+		var copts []grpc.CallOption
+		if cr := parseNS(m["ns"]); cr != nil {
+			copts = append(copts, grpc.PerRPCCredentials(cr))
+		}
+		c.env = newRetryEnv(parseScript(m["script"]), retryServiceConfig(m, ""), dopts, m["kind"], copts)
 		return "ok"
 	}
 	if c.env == nil {
@@ -76,7 +80,7 @@ func (c *retryC) Op(f []string) string {
 		return "skipped"
 	}
 	r := c.op(f)
-	if strings.HasPrefix(r, "blocked") || strings.HasPrefix(r, "PANIC") {
+	if strings.HasPrefix(r, "blocked") || strings.HasPrefix(r, "PANIC") || strings.Contains(r, "=blocked") {
 		c.blocked = true
 	}
 	return r
@@ -96,6 +100,8 @@ func (c *retryC) op(f []string) string {
 		return c.env.opCloseSend()
 	case "recv":
 		return c.env.opRecv()
+	case "sendrecv":
+		return c.env.opSendRecv(mustInt(f[1]))
 	case "hdr":
 		return c.env.opHeader()
 	case "cancel":
